@@ -40,7 +40,9 @@ def clock_term_ok(v: T.Term) -> bool:
     x = v[2]
     if isinstance(x, tuple) and x[:2] == ("app", "round") and len(x) == 3:
         x = x[2]
-    return isinstance(x, tuple) and len(x) == 3 and x[:2] == ("app", "time.time") and x[2][0] == "occ"
+    # (an occurrence tagged "import:" is a reading taken when a parameter default was evaluated at import, see
+    #  Interp.default_value: not a reading of this call)
+    return isinstance(x, tuple) and len(x) == 3 and x[:2] == ("app", "time.time") and x[2][0] == "occ" and not str(x[2][1]).startswith("import:")
 
 
 def check_role(role: str, sl: T.Term, op: str, o: Outcome, ctx: Dict[str, Any], pc: Optional[List[Any]] = None) -> Tuple[Optional[bool], str]:
